@@ -595,7 +595,7 @@ def last_change(tr):
 
 def monitors(tr, endT, cfg=CFG):
     """name -> list of witnesses of violation (empty = contract holds on this trace)"""
-    bad = {k: [] for k in ("WF", "K1", "K2", "K3", "K4", "K5", "K6", "K7")}
+    bad = {k: [] for k in ("WF", "K1", "K2", "K3", "K4", "K5", "K6", "K7", "K5a", "K6f")}
     ev = lambda k: [e for e in tr if e[1] == k]
     ups, closes, regs, upds, unregs, browses, sends, dlvs = (ev(k) for k in ("up", "close", "reg", "upd", "unreg", "browse", "send", "dlv"))
     D = cfg["maxDelay"]
@@ -685,6 +685,17 @@ def monitors(tr, endT, cfg=CFG):
             else:
                 if s[0] != h or not any(u[2] == s and u[0] <= t <= u[0] + cfg["bye"][-1] for u in unregs):
                     bad["K2"].append(["goodbye-without-unregister", t, h, s])
+
+    # ---- K6full / K5added (the lookup from Added)
+    for sd in sends:
+        for s in ptr_svcs(sd[5]):
+            if ptr_of(sd[5], s) > 0 and not pos_full(sd[5], s):
+                bad["K6f"].append(["positive-ptr-without-srv-txt-address", sd[0], sd[2], s])
+    for e in tr:
+        if e[1] == "add":
+            b, s = e[2], e[3]
+            if not any(x[4] == b[0] and x[0] <= e[0] and (ptr_of(x[6], s) or 0) > 0 for x in dlvs):
+                bad["K5a"].append(["added-without-processed-ptr", e[0], b, s])
 
     def has_send(h, t, pred, mc_only=True):
         return any(sd[2] == h and sd[0] == t and (sd[4] is None or not mc_only) and pred(sd[5]) for sd in sends)
@@ -942,7 +953,7 @@ def lean_compare(res, lean_jobs):
     except C.DriverUnavailable as ex:
         res.notes.append("driver unavailable: %s" % ex)
         return
-    names = ["WF", "K1", "K2", "K3", "K4", "K5", "K6", "K7"]
+    names = ["WF", "K1", "K2", "K3", "K4", "K5", "K6", "K7", "K5a", "K6f"]
     for (brief, tr, endT, mon, conc), out in zip(lean_jobs, outs):
         py = " ".join("%s=%s" % (k, C.b01(not mon[k])) for k in names) + " conv=%s" % C.b01(not conc)
         py += " lastChange=%d" % last_change(tr)
